@@ -35,7 +35,7 @@ def storage_accesses(ctx, f, accessing_methods):
 def run(ctx, R, tier):
     p = ctx.p
     ns = p.cls("Pyro5.nameserver.NameServer")
-    R.rule("C15-R1", "every NameServer method with two or more storage accesses on one path performs all of them inside one `with self.lock` region", floor=8)
+    R.rule("C15-R1", "every NameServer method with two or more storage accesses on one path performs all of them inside one `with self.lock` region; the storage is used through NameServer only; stored entries are never edited in place", floor=8)
     R.rule("C15-R3", "every mutating sqlite storage operation is one transaction, so lock-free readers (lookup, count) never see half of it (shared with C14-R2)", floor=5)
     R.rule("C15-R4", "the command line client keeps the atomicity: `nsc register` is one remote register(..., safe=True) call, not a check followed by an unsafe register", floor=1)
     R.rule("C15-R2", "one re-entrant lock created in __init__; storage is not accessed under another lock; no blocking call inside a lock region", floor=3)
@@ -154,6 +154,61 @@ def run(ctx, R, tier):
         R.check(not out_, "C15-R1", "NameServer.%s|storage-only-under-lock" % name, "every storage access of %s() lies in a `with self.lock` region" % name, m.loc(),
                 ("`%s` at %s reads the storage without the lock: it can run in the middle of another client's multi-entry operation" % (
                     unparse(getattr(out_[0], "_parent", out_[0]), 60), m.loc(out_[0]))) if out_ else "")
+
+    # the lock protects the storage only if the storage is reached through NameServer's own methods: any other code of the package that takes `<name server>.storage`
+    # and calls it (the auto-cleaner thread, the broadcast responder, the daemon glue) edits or reads the table while a client operation holds the lock.
+    # Allowed outside NameServer: closing the storage when the name server daemon shuts down.
+    n_ext = 0
+    for g in p.functions.values():
+        if isinstance(g.node, ast.Lambda) or (g.cls is not None and g.cls.qualname == ns.qualname):
+            continue
+        for n in walk_no_nested(g.node):
+            if isinstance(n, ast.Attribute) and n.attr == "storage" and isinstance(n.ctx, ast.Load) and not (isinstance(n.value, ast.Name) and n.value.id == "options"):
+                is_ns = ("cls:" + ns.qualname) in ctx.cg.expr_types(n.value, g) or (isinstance(n.value, ast.Attribute) and n.value.attr == "nameserver")
+                if not is_ns:
+                    continue
+                n_ext += 1
+                par = getattr(n, "_parent", None)
+                closing = isinstance(par, ast.Attribute) and par.attr == "close"
+                R.check(closing, "C15-R1", "outside-NameServer:%s|storage-only-closed" % g.qualname.split("Pyro5.nameserver.")[-1], "code outside NameServer touches the name server's storage only to close it",
+                        g.loc(n), "`%s` in %s uses the name server's storage directly, without NameServer.lock: it can run between the test and the action of a client's "
+                        "register/remove/set_metadata (KeyError for the client, a removed name resurrected, a half-removed group visible)" % (unparse(getattr(par, "_parent", par) if par is not None else n, 70), g.qualname))
+    if n_ext < 2:
+        raise AnalysisError("nameserver.py: the storage.close() calls of the name server daemon vanished (%d)" % n_ext)
+
+    # entries of the in-memory storage are replaced, never edited: NameServer.lookup/list hand the stored metadata set (or a copy made after the lock was released) to
+    # the caller and the daemon serialises replies outside the lock, so a stored value must never change after it was stored
+    mem = p.cls("Pyro5.nameserver.MemoryStorage")
+    EDITS = {"clear", "update", "add", "discard", "remove", "pop", "append", "extend", "insert", "difference_update", "intersection_update", "symmetric_difference_update", "sort"}
+    n_mem = 0
+    for name, m in sorted(mem.methods.items()):
+        n_mem += 1
+        stored = set()     # locals that may hold a stored entry or a part of one
+        changed = True
+        while changed:
+            changed = False
+            for st, t, k in stores_in(m.node):
+                if k not in ("assign", "for") or not hasattr(st, "value") and k == "assign":
+                    continue
+                src = st.value if k == "assign" else st.iter
+                reads_map = any((isinstance(x, ast.Call) and isinstance(x.func, ast.Attribute) and x.func.attr in ("get", "items", "values", "__getitem__", "pop", "setdefault") and
+                                 (unparse(x.func.value) == "self" or unparse(x.func.value).startswith("super("))) or
+                                (isinstance(x, ast.Subscript) and unparse(x.value) == "self") or
+                                (isinstance(x, ast.Name) and x.id in stored) for x in ast.walk(src))
+                if reads_map:
+                    for x in ast.walk(t):
+                        if isinstance(x, ast.Name) and x.id not in stored:
+                            stored.add(x.id)
+                            changed = True
+        bad = [x for x in walk_no_nested(m.node) if isinstance(x, ast.Call) and isinstance(x.func, ast.Attribute) and x.func.attr in EDITS and
+               any(isinstance(y, ast.Name) and y.id in stored for y in ast.walk(x.func.value))]
+        bad += [x for x in walk_no_nested(m.node) if isinstance(x, (ast.Assign, ast.AugAssign, ast.Delete)) and
+                any(isinstance(t, ast.Subscript) and any(isinstance(y, ast.Name) and y.id in stored for y in ast.walk(t.value)) for t in (x.targets if hasattr(x, "targets") else [x.target]))]
+        R.check(not bad, "C15-R1", "MemoryStorage.%s|entries-replaced-never-edited" % name, "a value read back from the map is never modified in place", m.loc(bad[0]) if bad else m.loc(),
+                ("`%s` edits an entry that is already stored: a reader that got this object under the lock (lookup copies it, list/yplookup hand it out, the reply is serialised) "
+                 "after releasing the lock sees it empty or half-filled - a state no order of the operations explains" % unparse(bad[0], 60)) if bad else "")
+    if n_mem < 5:
+        raise AnalysisError("MemoryStorage: fewer methods than expected (%d)" % n_mem)
 
     # ---------------------------------------------------------------- R2
     init = ns.methods.get("__init__")
